@@ -35,7 +35,7 @@ def fold_diags(chk, results, pid, shard_paths=None):
     for r in results:
         evs = None
         for d in r["diags"]:
-            if d.get("prop") != pid:
+            if d.get("prop") not in (pid, "PANIC"):
                 others[d.get("prop")] = others.get(d.get("prop"), 0) + 1
                 continue
             if len(chk.violations) > 300:
@@ -758,7 +758,14 @@ def main():
         return replay(a.pid, a.replay)
     if a.pid not in CHECKS:
         tool_error("no check for " + a.pid)
-    CHECKS[a.pid](a.pid, a.tier, seed)
+    try:
+        CHECKS[a.pid](a.pid, a.tier, seed)
+    except SystemExit:
+        raise
+    except Exception:
+        import traceback
+        traceback.print_exc()
+        tool_error("internal error of the checking machinery (traceback above)")
 
 
 def replay(pid, path):
